@@ -1,4 +1,5 @@
 import Walrus.Proofs.Module
+import Walrus.Proofs.Names
 
 /-!
 # C13 — debug names stay attached to the same entities
@@ -36,6 +37,57 @@ theorem names_follow_their_entities (m o : ModuleM) (h : roundTripModule m = som
   · intro p hp; rw [he] at hp; exact keepNames_sound _ p hp
   · intro p hp; rw [hd] at hp; exact keepNames_sound _ p hp
   · intro p hp; rw [hf] at hp; exact funcNamesOut_sound _ ρ p hp
+
+/-- **no name is lost**: every table / memory / global / element / data index the input names
+    carries its (last) name in the output, and every named function that has an output index
+    carries its name at that index -/
+theorem no_name_is_lost (m o : ModuleM) (h : roundTripModule m = some o) (no : NamesM)
+    (hno : o.names = some no) :
+    ∃ n, m.names = some n ∧
+      (∀ i s, lastName n.tables i = some s → (i, s) ∈ no.tables) ∧
+      (∀ i s, lastName n.mems i = some s → (i, s) ∈ no.mems) ∧
+      (∀ i s, lastName n.globals i = some s → (i, s) ∈ no.globals) ∧
+      (∀ i s, lastName n.elems i = some s → (i, s) ∈ no.elems) ∧
+      (∀ i s, lastName n.datas i = some s → (i, s) ∈ no.datas) ∧
+      ∃ ρ : List (Nat × Nat),
+        (∀ i j s, lastName n.funcs i = some s → assoc ρ i = some j → (j, s) ∈ no.funcs) ∧
+        (∀ (k : Nat) (e : String × String × Nat), m.exports[k]? = some e → e.2.1 = "f" →
+          ∃ e' : String × String × Nat, o.exports[k]? = some e' ∧ assoc ρ e.2.2 = some e'.2.2) := by
+  obtain ⟨ρ, hex, _, hnames⟩ := (roundTrip_components m o h).funcRenaming
+  obtain ⟨n, hn, _, hf, ht, hm, hg, he, hd⟩ := hnames no hno
+  refine ⟨n, hn, ?_, ?_, ?_, ?_, ?_, ρ, ?_, hex⟩
+  · intro i s hs; rw [ht]; exact keepNames_complete _ i s hs
+  · intro i s hs; rw [hm]; exact keepNames_complete _ i s hs
+  · intro i s hs; rw [hg]; exact keepNames_complete _ i s hs
+  · intro i s hs; rw [he]; exact keepNames_complete _ i s hs
+  · intro i s hs; rw [hd]; exact keepNames_complete _ i s hs
+  · intro i j s hs hj; rw [hf]; exact funcNamesOut_complete _ ρ i j s hs hj
+
+/-- **type names follow signatures**: a name the output gives to type index `j` was given by the
+    input to a type index with the very same signature (types are de-duplicated and sorted; the
+    last name given to any of the merged indices wins) -/
+theorem type_names_stay_with_their_signature (m o : ModuleM) (h : roundTripModule m = some o) (no : NamesM)
+    (hno : o.names = some no) :
+    ∃ n, m.names = some n ∧
+      ∀ p ∈ no.types, ∃ i sg, (i, p.2) ∈ n.types ∧ m.sigs[i]? = some sg ∧ o.sigs[p.1]? = some sg :=
+  type_names_follow_signatures m o h no hno
+
+/-- **local names follow their locals**: a name the output gives to slot `slot` of function `fj` is
+    a name the input gave to a local of the function that is emitted at `fj`, and `slot` is the
+    image of that local under the same local map the function's body was emitted with -/
+theorem local_names_stay_with_their_local (m o : ModuleM) (h : roundTripModule m = some o) (no : NamesM)
+    (hno : o.names = some no) :
+    ∃ n pfs oc, m.names = some n ∧
+      parseCode ⟨m.sigs, importedCount m "f", m.code.zip m.funcs |>.map fun p => ⟨p.2, p.1.1, p.1.2⟩⟩ = some pfs ∧
+      emitCode ⟨m.sigs, importedCount m "f", m.code.zip m.funcs |>.map fun p => ⟨p.2, p.1.1, p.1.2⟩⟩ pfs = some oc ∧
+      ∀ q ∈ no.locals, ∀ r ∈ q.2, ∃ (f : OutFunc) (pf : ParsedFunc) (li lid : Nat) (ty : String),
+        f ∈ oc.funcs ∧ pfs[f.id - importedCount m "f"]? = some pf ∧
+        pf.localTys[li]? = some (lid, ty) ∧
+        (li, r.2) ∈ (n.locals.filter (·.1 = f.id)).flatMap (·.2) ∧
+        assoc f.localMap lid = some r.1 ∧
+        assoc ((List.range (importedCount m "f")).map (fun i => (i, i)) ++
+          oc.funcs.zipIdx.map (fun p => (p.1.id, importedCount m "f" + p.2))) f.id = some q.1 :=
+  local_names_follow_their_locals m o h no hno
 
 /-- worked instance: two functions swapped by the size sort, their names swap with them; the name
     of the (used) second local follows it to its new slot -/
